@@ -858,6 +858,16 @@ def new_partition(total, prefix="blk"):
 CONCRETE_UNROLL = 0  # Tier-A keeps even concrete bounds symbolic unless set
 
 
+def _count_sums(a):
+    """number of summation binders in a sum atom (itself and those nested in its body)"""
+    n = 1
+    for m, _c in a.args[1].terms:
+        for b, _p in m:
+            if b.kind == "sum":
+                n += _count_sums(b)
+    return n
+
+
 def _multi_sum(vars_, mono):
     """Σ over all (v,bound) in vars_ of the monomial mono (coefficient 1)."""
     vars_ = list(vars_)
@@ -866,8 +876,10 @@ def _multi_sum(vars_, mono):
     #     factor: a product of several dependent sums is kept as a product of (canonical) atoms,
     #     otherwise the merged index set grows beyond what can be ordered canonically
     dep_sums = [a for a, p in mono if a.kind == "sum" and (a.syms & frozenset(names))]
+    small = len(dep_sums) == 1 or (all(p == 1 for a, p in mono if a.kind == "sum" and (a.syms & frozenset(names)))
+                                   and len(vars_) + sum(_count_sums(a) for a in dep_sums) <= 4)
     for a, p in mono:
-        if a.kind == "sum" and p == 1 and (a.syms & frozenset(names)) and len(dep_sums) == 1:
+        if a.kind == "sum" and p == 1 and (a.syms & frozenset(names)) and small:
             w, wb, wbody = open_binder(a)
             rest = Poly({tuple(x for x in mono if x[0] is not a): Fraction(1)})
             newbody = rest * wbody
